@@ -310,12 +310,12 @@ func goroutineDump() string {
 type cancelMode int
 
 const (
-	cancelCtx    cancelMode = iota // cancel the context given to Exec
-	cancelQuery                    // call Query.Cancel() from another goroutine
-	cancelBlock                    // the storage blocks until cancelled; cancel comes from a timer
-	cancelExpire                   // the context's deadline passes
-	cancelBlockAll                 // every storage interaction from the k-th on blocks until cancelled
-	cancelQueryBlock               // Query.Cancel() from another goroutine while the storage blocks until cancelled
+	cancelCtx        cancelMode = iota // cancel the context given to Exec
+	cancelQuery                        // call Query.Cancel() from another goroutine
+	cancelBlock                        // the storage blocks until cancelled; cancel comes from a timer
+	cancelExpire                       // the context's deadline passes
+	cancelBlockAll                     // every storage interaction from the k-th on blocks until cancelled
+	cancelQueryBlock                   // Query.Cancel() from another goroutine while the storage blocks until cancelled
 )
 
 func cancelOnce(c *Case, k int, mode cancelMode) (res Result, hung bool, leak string, st *MemStorage, fired bool) {
@@ -684,9 +684,10 @@ func concurrentCase(c *Case, lean *LeanDriver) Verdict {
 	st.ShareLabels = true
 	eng := NewThanos(c, EngOpts{})
 	type job struct {
-		c    *Case
-		solo Result
-		tie  bool
+		c      *Case
+		solo   Result
+		tie    bool
+		native bool
 	}
 	var jobs []job
 	c.Opt = "default"
@@ -706,7 +707,12 @@ func concurrentCase(c *Case, lean *LeanDriver) Verdict {
 		if ans, _, e := leanInfo(d, lean, "ties"); e == nil && ans["ties"] == "1" {
 			tie = true
 		}
-		jobs = append(jobs, job{d, solo, tie})
+		native := false
+		if qn, e := d.NewQuery(NewThanos(d, EngOpts{DisableFallback: true}), NewMemStorage(nil)); e == nil {
+			native = true
+			qn.Close()
+		}
+		jobs = append(jobs, job{d, solo, tie, native})
 		v.NonTriv = v.NonTriv || nonTrivial(solo)
 	}
 	K := 4 * len(jobs)
@@ -729,8 +735,10 @@ func concurrentCase(c *Case, lean *LeanDriver) Verdict {
 				}
 				return
 			}
-			if i%5 == 4 {
-				go q.Cancel() // Cancel racing with Exec
+			if i%5 == 4 && j.native {
+				// Cancel racing with Exec (the Prometheus engine's own query type has a
+				// race of its own between Cancel and Exec, so fallback queries are left alone)
+				go q.Cancel()
 			}
 			got := Canon(q.Exec(ctx), j.c)
 			q.Close()
